@@ -145,9 +145,16 @@ def string_codec(prog: Program, rep, rule="string-codec", with_nul_cut=True):
             errs = c.args[1] if len(c.args) > 1 else next((k.value for k in c.keywords if k.arg == "errors"), None)
             if errs is not None:
                 rep.fail(rule, MOD, f"BTSString.{mname}", c, f"decode uses errors={norm(errs)}: stored text is altered on read")
-    # bread forwards its codec
+    # bread delegates to read(): it must not decode (or cut) on its own
     br = prog.need_method(cls, "bread")
     fw = [c for c in walk_no_nested(br.node) if isinstance(c, ast.Call) and norm(c.func) == "BTSString.read"]
+    own = [c for c in walk_no_nested(br.node) if isinstance(c, ast.Call) and isinstance(c.func, ast.Attribute) and c.func.attr in ("decode", "split", "rstrip", "strip", "partition")]
+    rets = [s_ for s_ in walk_no_nested(br.node) if isinstance(s_, ast.Return)]
+    if fw and not own and len(rets) == 1 and rets[0].value is fw[0] and len(fw[0].args) >= 2 and norm(fw[0].args[0]) == br.params[1] \
+            and isinstance(fw[0].args[1], ast.Call) and norm(fw[0].args[1].func) == f"{br.params[0]}.read" and [norm(a) for a in fw[0].args[1].args] == [br.params[1]]:
+        rep.ok(rule, "BTSString.bread = BTSString.read(size, file.read(size)): one place cuts and decodes", nontrivial=True)
+    else:
+        rep.fail(rule, MOD, "BTSString.bread", rets[0] if rets else br.node, "bread no longer returns BTSString.read(size, file.read(size), ...): the stream path decodes/cuts on its own (bytes after the terminator can reach the codec)")
     if fw and (any(k.arg == "encoding" and norm(k.value) == "encoding" for k in fw[0].keywords) or (len(fw[0].args) > 2 and norm(fw[0].args[2]) == "encoding")):
         rep.ok(rule, "BTSString.bread forwards its encoding to read()")
     elif fw:
